@@ -2190,10 +2190,20 @@ func (s *lsState) brackets() ([][3]string, [][3]string) {
 				})
 				for _, body := range bodies {
 					for _, acq := range lsAcquisitions(body) {
+						// the proxy driver's own Begin/BeginTx implementations create driver.Tx objects
+						// that database/sql (their caller) ends: only database/sql transactions opened
+						// by client code outside the driver package are bracketed
+						if d == "pkg/datasource/sql" && lsAcqKind(acq.Rhs[0].(*ast.CallExpr)) == "tx" {
+							continue
+						}
 						v := acq.Lhs[0].(*ast.Ident).Name
-						bw := &lsBrWalker{s: s, v: v, acq: acq, closers: closers}
+						bw := &lsBrWalker{s: s, v: v, acq: acq, closers: closers, enders: map[string]bool{"Close": true}}
+						if lsAcqKind(acq.Rhs[0].(*ast.CallExpr)) == "tx" {
+							bw.enders = map[string]bool{"Commit": true, "Rollback": true}
+							bw.closers = map[string]int{}
+						}
 						st, term := bw.block(body.List, 0)
-						if !term && st == 1 {
+						if !term && (st == 3 || (st == 1 && bw.condFlag == "" && !bw.condErr)) {
 							bw.exits = append(bw.exits, s.fset.Position(body.Rbrace).Line)
 						}
 						name := lsShort(d) + "." + lsFuncName(fd)
@@ -2222,10 +2232,10 @@ func lsAcquisitions(body *ast.BlockStmt) []*ast.AssignStmt {
 			return true
 		}
 		c, ok := as.Rhs[0].(*ast.CallExpr)
-		if !ok || len(c.Args) != 1 {
+		if !ok {
 			return true
 		}
-		if se, ok := c.Fun.(*ast.SelectorExpr); !ok || se.Sel.Name != "Conn" {
+		if lsAcqKind(c) == "" {
 			return true
 		}
 		if _, ok := as.Lhs[0].(*ast.Ident); ok {
@@ -2236,8 +2246,28 @@ func lsAcquisitions(body *ast.BlockStmt) []*ast.AssignStmt {
 	return res
 }
 
-// lsBrWalker: state 0 = v not acquired yet, 1 = open, 2 = given back
+// lsAcqKind: "conn" for X.Conn(ctx) (given back by Close), "tx" for X.BeginTx(ctx, opts) / X.Begin()
+// (ended by Commit or Rollback)
+func lsAcqKind(c *ast.CallExpr) string {
+	se, ok := c.Fun.(*ast.SelectorExpr)
+	if !ok {
+		return ""
+	}
+	switch {
+	case se.Sel.Name == "Conn" && len(c.Args) == 1:
+		return "conn"
+	case se.Sel.Name == "BeginTx" && len(c.Args) == 2, se.Sel.Name == "Begin" && len(c.Args) == 0:
+		return "tx"
+	}
+	return ""
+}
+
+// lsBrWalker: state 0 = v not acquired yet, 1 = open, 2 = given back, 3 = open and the flag that
+// switches the deferred clean-up off has been set
 type lsBrWalker struct {
+	enders   map[string]bool // methods that give v back
+	condFlag string          // deferred clean-up runs only while this flag is false
+	condErr  bool            // deferred clean-up runs only when the error result is not nil
 	s       *lsState
 	v       string
 	acq     *ast.AssignStmt
@@ -2261,7 +2291,7 @@ func (b *lsBrWalker) gives(n ast.Node) bool {
 			return true
 		}
 		if s2, ok := cc.Fun.(*ast.SelectorExpr); ok {
-			if id, ok := s2.X.(*ast.Ident); ok && id.Name == b.v && s2.Sel.Name == "Close" && len(cc.Args) == 0 {
+			if id, ok := s2.X.(*ast.Ident); ok && id.Name == b.v && b.enders[s2.Sel.Name] && len(cc.Args) == 0 {
 				found = true
 			}
 			if k, ok := b.closers[s2.Sel.Name]; ok && k < len(cc.Args) {
@@ -2284,11 +2314,40 @@ func (b *lsBrWalker) gives(n ast.Node) bool {
 
 func (b *lsBrWalker) mentions(e ast.Expr) bool {
 	id, ok := e.(*ast.Ident)
-	return ok && id.Name == b.v
+	if ok && id.Name == b.v {
+		return true
+	}
+	// a transaction wrapped on the way out (return newTx(withOriginTx(tx)), a struct literal holding
+	// it): whoever receives the wrapper ends it.  Only for transactions: a connection handed to a
+	// callee stays the caller's to close unless the callee is a known closer.
+	if b.enders["Commit"] {
+		found := false
+		ast.Inspect(e, func(n ast.Node) bool {
+			switch x := n.(type) {
+			case *ast.CallExpr:
+				for _, a := range x.Args {
+					if i, ok := a.(*ast.Ident); ok && i.Name == b.v {
+						found = true
+					}
+				}
+			case *ast.KeyValueExpr:
+				if i, ok := x.Value.(*ast.Ident); ok && i.Name == b.v {
+					found = true
+				}
+			}
+			return true
+		})
+		return found
+	}
+	return false
 }
 
 func lsWorse(a, c int) int {
-	// open (1) is the worst, then not-acquired (0), then given back (2)
+	// open with the clean-up switched off (3) is the worst, then open (1), then not-acquired (0),
+	// then given back (2)
+	if a == 3 || c == 3 {
+		return 3
+	}
 	if a == 1 || c == 1 {
 		return 1
 	}
@@ -2320,6 +2379,13 @@ func (b *lsBrWalker) stmt(x ast.Stmt, st int) (int, bool) {
 			b.fresh = true
 			return 1, false
 		}
+		if st == 1 && b.condFlag != "" && len(v.Lhs) == 1 && len(v.Rhs) == 1 {
+			if l, ok := v.Lhs[0].(*ast.Ident); ok && l.Name == b.condFlag {
+				if r, ok := v.Rhs[0].(*ast.Ident); ok && r.Name == "true" {
+					return 3, false // the deferred clean-up is switched off while v is still open
+				}
+			}
+		}
 		if st == 1 {
 			if b.gives(v) {
 				return 2, false
@@ -2349,16 +2415,51 @@ func (b *lsBrWalker) stmt(x ast.Stmt, st int) (int, bool) {
 				return 2, false
 			}
 			if lit, ok := v.Call.Fun.(*ast.FuncLit); ok && b.gives(lit.Body) {
+				// unconditional in the deferred literal: given back on every exit.  Under
+				// `if !flag { .. }` it runs on the exits that did not set the flag; under
+				// `if err != nil { .. }` it does not run on the exits that return a nil error.
+				for _, ds := range lit.Body.List {
+					is, isIf := ds.(*ast.IfStmt)
+					if !b.gives(ds) {
+						continue
+					}
+					if !isIf || b.gives(is.Init) || b.gives(is.Cond) {
+						return 2, false
+					}
+					if u, ok := is.Cond.(*ast.UnaryExpr); ok && u.Op == token.NOT {
+						if id, ok := u.X.(*ast.Ident); ok {
+							b.condFlag = id.Name
+							return st, false
+						}
+					}
+					if lsIsErrCheck(is.Cond) {
+						b.condErr = true
+						return st, false
+					}
+					return 2, false // another condition: not analysed, benefit of the doubt
+				}
 				return 2, false
 			}
 		}
 		return st, false
 	case *ast.ReturnStmt:
-		if st == 1 {
+		if st == 1 || st == 3 {
 			ok := b.gives(v)
 			for _, r := range v.Results {
 				if b.mentions(r) {
 					ok = true
+				}
+			}
+			if st == 1 && b.condFlag != "" {
+				ok = true // the deferred clean-up still runs on this exit
+			}
+			if st == 1 && b.condErr {
+				// the deferred clean-up runs unless this exit reports success (a literal nil error)
+				ok = true
+				if n := len(v.Results); n > 0 {
+					if id, isID := v.Results[n-1].(*ast.Ident); isID && id.Name == "nil" {
+						ok = b.gives(v)
+					}
 				}
 			}
 			if !ok {
